@@ -10,7 +10,9 @@ import (
 
 	"github.com/tsawler/tabula"
 	"github.com/tsawler/tabula/contentstream"
+	"github.com/tsawler/tabula/reader"
 	"github.com/tsawler/tabula/text"
+	"github.com/tsawler/tabula/zzharness/faults"
 	"github.com/tsawler/tabula/zzharness/pdfw"
 	"github.com/tsawler/tabula/zzharness/sim"
 	"github.com/tsawler/tabula/zzsimrt"
@@ -34,6 +36,7 @@ func New(seed uint64) *Pool { return &Pool{seed: seed} }
 // layout of a pool: fixed slots per kind so that Doc(i) is independent of other slots
 var slots = []string{
 	"pdf", "pdf", "pdf", "pdf", "pdf", "pdf", "pdf", "pdf", "pdf", "pdf", "pdf", "pdf",
+	"pdfdamaged", "pdfdamaged", "pdfdamaged", "pdfdamaged", "pdfdamaged", "pdfdamaged",
 	"cs", "cs", "cs", "cs", "cs", "cs", "cs", "cs", "cs", "cs",
 	"html", "html", "html", "html", "html", "html",
 }
@@ -63,6 +66,8 @@ func (p *Pool) Doc(i int) Doc {
 		}
 		g := pdfw.Generate(sp)
 		return Doc{Kind: "pdf", Ext: ".pdf", Data: g.Built.Bytes, Note: strings.Join(sp.Features(), ",")}
+	case "pdfdamaged":
+		return damagedPDF(r)
 	case "cs":
 		return Doc{Kind: "cs", Ext: ".cs", Data: ContentStream(r)}
 	case "html":
@@ -83,6 +88,8 @@ func (p *Pool) OpsFor(i int) []string {
 	switch p.Kind(i) {
 	case "pdf":
 		return pdfOps
+	case "pdfdamaged":
+		return damagedOps
 	case "cs":
 		return []string{"cs.parse", "cs.extract"}
 	case "html":
@@ -91,9 +98,55 @@ func (p *Pool) OpsFor(i int) []string {
 	return fileOps
 }
 
+// operations on damaged documents: failing calls are the ones that leave state behind
+var damagedOps = []string{"file.text", "file.markdown", "file.fragments", "file.jsonl", "file.pagecount",
+	"reader.repeat.text", "reader.repeat.text", "reader.repeat.fragments", "reader.repeat.markdown"}
+
+// damagedPDF: a valid document from the independent writer with one fault of the
+// C02 catalogue applied, biased towards the faults that make a later step fail
+// half way: a corrupted stream body, a reference to a missing object.
+func damagedPDF(r *sim.Rand) Doc {
+	sp := pdfw.RandomSpec(r)
+	sp.EOL = 0
+	sp.Pages = 1 + r.Intn(3)
+	sp.Lines = 1 + r.Intn(4)
+	sp.BigStream = 0
+	if r.Pct(60) {
+		sp.Filter = 4 + r.Intn(3) // filter arrays
+	}
+	if r.Pct(50) {
+		sp.FormXObj = true
+	}
+	all := faults.EnumPDFFields(sp)
+	var pick []faults.Fault
+	want := sim.Pick(r, []string{"stream-body", "stream-body", "missing-ref", "missing-ref", "any"})
+	for _, f := range all {
+		switch want {
+		case "stream-body":
+			if f.Kind == "stream-body" && f.B != 4 {
+				pick = append(pick, f)
+			}
+		case "missing-ref":
+			if f.Kind == "field" && f.B == 3 && (strings.Contains(f.S, "Font") || strings.Contains(f.S, "Contents") || strings.Contains(f.S, "ToUnicode") || strings.Contains(f.S, "XObject")) {
+				pick = append(pick, f)
+			}
+		default:
+			pick = append(pick, f)
+		}
+	}
+	if len(pick) == 0 {
+		pick = all
+	}
+	f := sim.Pick(r, pick)
+	return Doc{Kind: "pdfdamaged", Ext: ".pdf", Data: faults.ApplyPDFFields(sp, []faults.Fault{f}), Note: f.String()}
+}
+
 // SyncSeen reports whether the instrumenter found synchronisation primitives
 // in non-test code; the lock-set race rule is exact only when there are none.
 func SyncSeen() bool { return zzsimrt.SyncSeen }
+
+// RepeatMismatch prefixes the output of a repeat operation whose repetitions disagree.
+const RepeatMismatch = "REPEAT-MISMATCH"
 
 // OpBudget is the step budget of one operation in pools (documents here are
 // small; this only stops hangs on damaged pool members).
@@ -147,6 +200,39 @@ func runOp(op, path string, data []byte) string {
 	case "html.markdown":
 		s, w, err := tabula.FromHTMLString(string(data)).ToMarkdown()
 		return res(s, w, err)
+	case "reader.repeat.text", "reader.repeat.fragments", "reader.repeat.markdown":
+		// the same operation several times on ONE reader (tabula.FromReader leaves the reader
+		// to its owner): every repetition must give the same complete result
+		rd, err := reader.Open(path)
+		if err != nil {
+			return res("", nil, err)
+		}
+		defer rd.Close()
+		once := func() string {
+			e := tabula.FromReader(rd)
+			switch op {
+			case "reader.repeat.fragments":
+				f, w, err := e.Fragments()
+				return res(f, w, err)
+			case "reader.repeat.markdown":
+				s, w, err := e.ToMarkdown()
+				return res(s, w, err)
+			}
+			s, w, err := e.Text()
+			return res(s, w, err)
+		}
+		first := once()
+		second := once()
+		rd.ClearCache()
+		third := once()
+		if first != second || first != third {
+			a, b := sim.DiffContext(first, second)
+			if first == second {
+				a, b = sim.DiffContext(first, third)
+			}
+			return RepeatMismatch + " first: " + a + " later: " + b
+		}
+		return first
 	case "file.text":
 		s, w, err := tabula.Open(path).Text()
 		return res(s, w, err)
